@@ -1318,3 +1318,32 @@ def stream_once_after_lookup(rng):
         stmts.append(["obj", _T("J", None, False, [("f1", ["str", "plain"]), ("f2", ["int", 1])])])
     return {"version": rng.choice([2, 3]), "options": [], "stmts": stmts}, \
         ["just_once", "once_after_lookup"] + (["nick"] if n1 else []) + (["var_top"] if first == "var" else [])
+
+
+def stream_constant_vars(rng):
+    """top-level variables whose value is a plain constant (a number, a text) or a formula of constants,
+    defined before the templates that read them (in fields, counts, friends, nested templates); every
+    iteration of every run - the first iteration of a continued run too - must see them"""
+    vals = [["int", rng.choice([3, 19, 0])], ["str", rng.choice(["eu", "x y"])], _F(["e", ["add", ["int", 2], ["int", 5]]]),
+            ["int", 2]]
+    rng.shuffle(vals)
+    names = ["v0", "v1", "v2"][:rng.randint(1, 3)]
+    stmts = [["var", nm, vals[i]] for i, nm in enumerate(names)]
+    if rng.random() < 0.3:
+        stmts.insert(rng.randint(0, len(stmts)), ["obj", _T("J", "jj", True, [("f0", ["int", 9])])])
+    fields = [("a%d" % i, _F(["e", ["var", nm]])) for i, nm in enumerate(names)]
+    fields.append(("s", _F(["t", "p"], ["e", ["var", names[0]]], ["t", "q"])))
+    cnt = None
+    for i, nm in enumerate(names):
+        if vals[i] == ["int", 2] and rng.random() < 0.6:
+            cnt = _F(["e", ["var", nm]])
+    t = _T("A", None, False, fields, count=cnt)
+    if rng.random() < 0.4:
+        t["friends"] = [["obj", _T("B", None, False, [("g", _F(["e", ["var", names[-1]]]))])]]
+    if rng.random() < 0.3:
+        t["fields"].append(["kid", ["nested", _T("K", None, False, [("k", _F(["e", ["var", names[0]]]))])]])
+    stmts.append(["obj", t])
+    if rng.random() < 0.4:       # a later variable that builds on an earlier one
+        stmts.append(["var", "w0", _F(["e", ["var", names[0]]], ["t", "-"], ["e", ["attr", ["var", "A"], "id"]])])
+        stmts.append(["obj", _T("C", None, False, [("h", _F(["e", ["var", "w0"]]))])])
+    return {"version": rng.choice([2, 3]), "options": [], "stmts": stmts}, ["var_top", "constant_vars", "formula"]
